@@ -42,7 +42,7 @@ func RunCtxEnd(e *Env) {
 	R.Assume("a node error (e.g. 'stream is down' for a refused connection) that is available when the context ends is a legitimate outcome; only errors that exist because of the context's end must match it")
 	rng := e.Rand(8)
 	var cases []XCase
-	n := e.Pick(260, 5000)
+	n := e.Pick(1500, 80000)
 	for i := 0; i < n; i++ {
 		c := XCase{Method: allMethods[rng.Intn(len(allMethods))], N: 1 + rng.Intn(3), Behaviour: xBehaviours[rng.Intn(len(xBehaviours))], Instant: xInstants[rng.Intn(len(xInstants))],
 			Traffic: xTraffic[rng.Intn(len(xTraffic))], Deadline: rng.Intn(2) == 0, Buffer: []uint{0, 0, 2}[rng.Intn(3)]}
